@@ -34,21 +34,27 @@ import (
 // a triple on the stream. The triples read till then would have also been
 // added to the graph. The int value returns the number of triples added.
 func ReadIntoGraph(ctx context.Context, g storage.Graph, r io.Reader, b literal.Builder) (int, error) {
-	cnt, scanner := 0, bufio.NewScanner(r)
-	scanner.Split(bufio.ScanLines)
-	for scanner.Scan() {
-		text := strings.TrimSpace(scanner.Text())
-		if text == "" {
-			continue
+	// A bufio.Scanner gives up on a line longer than 64 KiB and the loop then
+	// ended as if the input was exhausted: lines are read without a length
+	// limit, and a failing reader is reported.
+	cnt, rd := 0, bufio.NewReader(r)
+	for {
+		line, rErr := rd.ReadString('\n')
+		if rErr != nil && rErr != io.EOF {
+			return cnt, rErr
 		}
-		t, err := triple.Parse(text, b)
-		if err != nil {
-			return cnt, err
+		if text := strings.TrimSpace(line); text != "" {
+			t, err := triple.Parse(text, b)
+			if err != nil {
+				return cnt, err
+			}
+			cnt++
+			g.AddTriples(ctx, []*triple.Triple{t})
 		}
-		cnt++
-		g.AddTriples(ctx, []*triple.Triple{t})
+		if rErr == io.EOF {
+			return cnt, nil
+		}
 	}
-	return cnt, nil
 }
 
 // WriteGraph serializes the graph into the writer where each triple is
